@@ -376,7 +376,13 @@ class Repo:
                     if nd.id in mapping and isinstance(nd.ctx, ast.Load):
                         return ast.copy_location(copy.deepcopy(mapping[nd.id]), nd)
                     return nd
-            out = [Sub().visit(st) for st in pre + body]
+            # (the argument expressions belong to the CALLER's scope: only the targets of
+            # the parameter bindings are renamed)
+            for st in pre:
+                tgt = st.targets[0]
+                if tgt.id in rename:
+                    tgt.id = rename[tgt.id]
+            out = pre + [Sub().visit(st) for st in body]
             result = None
             if out and isinstance(out[-1], ast.Return):
                 result = out[-1].value
